@@ -116,6 +116,31 @@ func collectCandidates(ts []*Term, into map[Sort]map[string]*Term, limit int) {
 				}
 			}
 		}
+		// an index written as a sum offset + k: k itself (the sum without one addend) is the instance a hypothesis quantified
+		// over k needs; e-matching cannot take sums apart
+		if asIndex && t.Op == "+" && len(t.Args) >= 2 && len(t.Args) <= 4 && t.Sort == SInt && !mentionsBound(t) {
+			for drop := range t.Args {
+				var rest []*Term
+				for i, a := range t.Args {
+					if i != drop {
+						rest = append(rest, a)
+					}
+				}
+				sub := rest[0]
+				for _, r := range rest[1:] {
+					sub = mkAdd(sub, r)
+				}
+				if !sub.Lit {
+					k := sub.String()
+					if into[SInt] == nil {
+						into[SInt] = map[string]*Term{}
+					}
+					if len(k) < 400 && len(into[SInt]) < limit {
+						into[SInt][k] = sub
+					}
+				}
+			}
+		}
 		switch {
 		case t.Op == "select" && len(t.Args) == 2:
 			walk(t.Args[0], false)
